@@ -48,7 +48,8 @@ type Scn struct {
 	// happens right after a Render has read the previous size (a schedule of specs/conc/ResizeFlag.tla)
 	Resizes int `json:",omitempty"`
 	// kind "queries": QCallers goroutines issue terminal queries while the main goroutine renders and
-	// (Cycles times) suspends and resumes; QReply says when the terminal's replies arrive:
+	// (Cycles times, the callers going on until that is over) suspends and resumes; QReply says when the
+	// terminal's replies arrive:
 	//   ontime       within the write of the query
 	//   late         1-7 ms after it
 	//   never        not at all
@@ -99,12 +100,21 @@ func NewResult() *Result {
 
 type pev struct{ P, N int }
 
-// libGoroutines returns a description of every goroutine started by the library.
-func libGoroutines() []string {
+// libGoroutines returns a description of every goroutine started by the library, except those whose
+// id is in base (goroutines an earlier scenario of this process left behind: they are that scenario's).
+// ids, when not nil, receives the ids of the goroutines found.
+func libGoroutines(base map[string]bool, ids map[string]bool) []string {
 	buf := make([]byte, 1<<20)
 	n := runtime.Stack(buf, true)
 	var out []string
 	for _, g := range strings.Split(string(buf[:n]), "\n\n") {
+		id := ""
+		if f := strings.Fields(g); len(f) > 1 && f[0] == "goroutine" {
+			id = f[1]
+		}
+		if base[id] {
+			continue
+		}
 		i := strings.LastIndex(g, "created by ")
 		if i < 0 {
 			continue
@@ -123,6 +133,9 @@ func libGoroutines() []string {
 				}
 			}
 			out = append(out, ascii(creator+" at "+top))
+			if ids != nil {
+				ids[id] = true
+			}
 		}
 	}
 	sort.Strings(out)
@@ -196,6 +209,9 @@ func resizeHandoff(sc *Scn, res *Result) *Result {
 	return res
 }
 
+// leakBase is the set of library goroutines that existed when the scenario under way began.
+var leakBase map[string]bool
+
 // waitLeaks fills res.Leaked with the library's goroutines that are still there (up to 1 s after Close).
 func waitLeaks(res *Result) {
 	if !res.Returned {
@@ -203,7 +219,7 @@ func waitLeaks(res *Result) {
 	}
 	deadline := time.Now().Add(time.Second)
 	for {
-		res.Leaked = libGoroutines()
+		res.Leaked = libGoroutines(leakBase, nil)
 		if len(res.Leaked) == 0 || time.Now().After(deadline) {
 			return
 		}
@@ -286,12 +302,14 @@ func queryRun(sc *Scn, res *Result) *Result {
 		}
 	}()
 	active.Store(true)
+	var cycled atomic.Bool // the Suspend/Resume cycles are over (callers keep asking until then)
+	cycled.Store(sc.Cycles == 0)
 	done := make([]chan struct{}, len(sc.QCallers))
 	for ci, qc := range sc.QCallers {
 		done[ci] = make(chan struct{})
 		go func(ci int, qc QCaller) {
 			defer close(done[ci])
-			for n := 0; n < qc.N; n++ {
+			for n := 0; n < qc.N || !cycled.Load(); n++ {
 				for _, k := range qc.Kinds {
 					switch {
 					case strings.HasPrefix(k, "color:"):
@@ -329,9 +347,9 @@ func queryRun(sc *Scn, res *Result) *Result {
 		ok = call("Suspend", func() { vx.Suspend() }, res) && call("Resume", func() { vx.Resume() }, res)
 		if ok {
 			frame(c)
-			frame(c + 1)
 		}
 	}
+	cycled.Store(true)
 	obs := make([]QObs, len(sc.QCallers))
 	for ci, qc := range sc.QCallers {
 		ks := make([]string, len(qc.Kinds))
@@ -496,6 +514,8 @@ func spinnerRun(sc *Scn, res *Result) *Result {
 
 func Execute(sc *Scn) *Result {
 	res := NewResult()
+	leakBase = map[string]bool{}
+	libGoroutines(nil, leakBase)
 	if sc.Resizes > 0 {
 		return resizeHandoff(sc, res)
 	}
@@ -759,7 +779,7 @@ func GenQuery(rng *rand.Rand) *Scn {
 	switch sc.QReply {
 	case "ontime":
 		n = 1 + rng.Intn(40)
-		sc.Cycles = rng.Intn(4)
+		sc.Cycles = []int{0, 0, 2, 4, 8}[rng.Intn(5)]
 	case "late":
 		n = 1 + rng.Intn(10)
 	case "held-resume":
@@ -802,8 +822,9 @@ func Fixed() []*Scn {
 		{Kind: "queries", QReply: "held-resume", QCallers: all[1:], End: "suspend-resume-close", Seed: 25},
 		{Kind: "queries", QReply: "ontime", QCallers: []QCaller{{[]string{"color:10"}, 150}, {[]string{"color:11"}, 150}, {[]string{"color:12", "bg"}, 80}, {[]string{"color:13", "fg", "cpr"}, 50}}, Render: 5, End: "close", Seed: 26},
 		{Kind: "queries", QReply: "late", QCallers: []QCaller{{[]string{"color:10"}, 8}, {[]string{"color:11", "bg"}, 5}, {[]string{"fg", "cpr"}, 5}}, Render: 3, End: "suspend-resume-close", Seed: 27},
-		{Kind: "queries", QReply: "ontime", Cycles: 3, QCallers: []QCaller{{[]string{"cpr"}, 60}, {[]string{"bg", "clip"}, 30}}, Render: 2, End: "close", Seed: 28},
+		{Kind: "queries", QReply: "ontime", Cycles: 8, QCallers: []QCaller{{[]string{"cpr"}, 20}, {[]string{"cpr", "clip"}, 20}}, Render: 2, End: "close", Seed: 28},
 		{Kind: "queries", QReply: "ontime", Cycles: 3, QCallers: []QCaller{{[]string{"color:3", "fg"}, 40}}, End: "suspend-close", Seed: 29},
+		{Kind: "queries", QReply: "ontime", Cycles: 6, QCallers: []QCaller{{[]string{"bg"}, 10}, {[]string{"color:7", "cpr"}, 10}}, Render: 1, End: "suspend-resume-close", Seed: 30},
 		// widgets/spinner: its ticker goroutine is one of the library's
 		{Kind: "spinner", Spin: "run", Seed: 31},
 		{Kind: "spinner", Spin: "stop-posted", Seed: 32},
